@@ -38,6 +38,46 @@ def classify(a, c, w, rv):
     return 'pass'
 
 
+def substitution_guard(ck, P):
+    """the clause of C15.R3/R4 that C01 and C04 rest on: a re-use marker is substituted for a label only on a path that
+    established Some(label) == last_label, and never with an empty label memory"""
+    f = ck.facts
+    c = Cells(f)
+    a = analyse_clru(ck)
+    init = a.I.read(a.w0, a.args[0][1])
+    last0 = init[1][c.i_last]
+    param0 = a.args[1]
+    eqkeys = []
+    for r in a.events('eqtest'):
+        _, k, la, va, lb, vb = r.data
+        sides = [va, vb]
+        if any(v[0] == 'enum' and len(v[1]) == 1 and v[1][0][0] == 1 and same_or_refined(param0, v[1][0][1][0]) for v in sides) and \
+                any(same_or_refined(last0, v) for v in sides):
+            eqkeys.append(k)
+    n = 0
+    for w, rv in a.rets:
+        if classify(a, c, w, rv) != 'subst':
+            continue
+        n += 1
+        ck.obligations += 1
+        if any(w.facts.get(k) is True for k in eqkeys):
+            ck.discharged += 1
+        else:
+            ck.finding(P, ENC + 'check_label_re_use', 'subst-without-equality',
+                       'a re-use marker can be substituted for a label that has not been compared equal to the remembered label: the receiver would attribute the PDU to another label or refuse it')
+
+    def empty_memory(I, w, args):
+        I.write(w, args[0][1].ext(('f', c.i_last)), ('enum', ((0, ()),)))
+    b = analyse_clru(ck, assume=empty_memory, tag='last=None')
+    for w, rv in b.rets:
+        ck.obligations += 1
+        if classify(b, c, w, rv) == 'subst':
+            ck.finding(P, ENC + 'check_label_re_use', 'subst-after-reset', 'with an empty label memory a re-use marker can still be substituted')
+        else:
+            ck.discharged += 1
+    ck.rule(f'{P} substitution paths of check_label_re_use (guarded by Some(label) == last_label)', n, 1)
+
+
 def run(ck):
     f = ck.facts
     c = Cells(f)
